@@ -137,7 +137,7 @@ func (r *HTTPResponseExpr) Validate(e *HTTPEndpointExpr) *eval.ValidationErrors 
 
 	// text/html and text/plain can only encode strings so make sure there isn't
 	// an explicit conflict with the content-type and response.
-	if (r.ContentType == "text/html" || r.ContentType == "text/plain") && !e.SkipRequestBodyEncodeDecode {
+	if (r.ContentType == "text/html" || r.ContentType == "text/plain") && !e.SkipResponseBodyEncodeDecode {
 		if e.MethodExpr.Result.Type != nil && e.MethodExpr.Result.Type != String && e.MethodExpr.Result.Type != Bytes && r.Body == nil {
 			verr.Add(r, "Result type must be String or Bytes when ContentType is '%s'", r.ContentType)
 		}
